@@ -234,4 +234,88 @@ theorem singleParticipant_ne_panic (a : Bits) (c : List Nat) : singleParticipant
   · simp
   · split <;> simp
 
+/-! ## OR-ing a bitfield into the participants keeps them covering it -/
+
+theorem bitIndex_le_iff_nat : ∀ n < 256, ∀ k < 8, bitIndex (UInt8.ofNat n) ≤ k ↔ n < 2 ^ (k + 1) := by decide +kernel
+
+theorem bitIndex_le_iff (v : UInt8) (k : Nat) (hk : k < 8) : bitIndex v ≤ k ↔ v.toNat < 2 ^ (k + 1) := by
+  have := bitIndex_le_iff_nat v.toNat v.toNat_lt k hk
+  rwa [UInt8.ofNat_toNat'] at this
+
+theorem bitIndex_or (x y : UInt8) (h : bitIndex x = bitIndex y) : bitIndex (x ||| y) = bitIndex y := by
+  have hk := bitIndex_le y
+  have hx : x.toNat < 2 ^ (bitIndex y + 1) := (bitIndex_le_iff x _ (by omega)).mp (by omega)
+  have hy : y.toNat < 2 ^ (bitIndex y + 1) := (bitIndex_le_iff y _ (by omega)).mp (by omega)
+  have hor : (x ||| y).toNat = x.toNat ||| y.toNat := UInt8.toNat_or x y
+  have hup : bitIndex (x ||| y) ≤ bitIndex y := by
+    rw [bitIndex_le_iff _ _ (by omega), hor]; exact Nat.or_lt_two_pow hx hy
+  by_cases h0 : bitIndex y = 0
+  · omega
+  · have hlow : ¬ bitIndex (x ||| y) ≤ bitIndex y - 1 := by
+      rw [bitIndex_le_iff _ _ (by omega), hor]
+      have : ¬ y.toNat < 2 ^ (bitIndex y - 1 + 1) := by
+        rw [← bitIndex_le_iff _ _ (by omega)]; omega
+      have : y.toNat ≤ x.toNat ||| y.toNat := Nat.right_le_or
+      omega
+    omega
+
+theorem byteCov_self (x : UInt8) : x &&& ~~~ x = 0 := (byteCov x x).mpr (fun _ _ h => h)
+
+theorem byteCov_or (u x : UInt8) : x &&& ~~~ (u ||| x) = 0 := by
+  rw [byteCov]
+  intro j _ h
+  rw [UInt8.toNat_or, Nat.testBit_or, h, Bool.or_true]
+
+theorem bitlistLen_zipWith_or (u b : Bits) (h1 : bitlistLen u = bitlistLen b) (h2 : u.length = b.length) :
+    bitlistLen (u.zipWith (· ||| ·) b) = bitlistLen b := by
+  have hlen : (u.zipWith (· ||| ·) b).length = b.length := by simp [h2]
+  cases hb : b.getLast? with
+  | none =>
+    have : b = [] := by simpa using hb
+    subst this; simp [bitlistLen]
+  | some lb =>
+    have hpos := length_pos_of_getLast? hb
+    cases hu : u.getLast? with
+    | none =>
+      have : u = [] := by simpa using hu
+      subst this; simp at h2; omega
+    | some lu =>
+      have hz : (u.zipWith (· ||| ·) b).getLast? = some (lu ||| lb) := by
+        rw [List.getLast?_eq_getElem?] at hb hu ⊢
+        rw [hlen, List.getElem?_zipWith]
+        rw [h2] at hu
+        rw [hu, hb]
+      rw [bitlistLen_of_last hz, bitlistLen_of_last hb, hlen]
+      rw [bitlistLen_of_last hu, bitlistLen_of_last hb, h2] at h1
+      have := bitIndex_or lu lb (by omega)
+      omega
+
+theorem covers_ok_lens {a b : Bits} {r : Bool} (h : covers a b = .ok r) :
+    bitlistLen a = bitlistLen b ∧ a.length = b.length := by
+  unfold covers at h
+  split at h
+  · cases h
+  · split at h
+    · cases h
+    · rename_i h1 h2; exact ⟨by simpa using h1, by simpa using h2⟩
+
+theorem covers_self (b : Bits) : covers b b = .ok true := by
+  unfold covers
+  simp only [ne_eq, not_true_eq_false, if_false]
+  congr 1
+  rw [all_zip_getD _ b b rfl]
+  intro k _; simp [byteCov_self]
+
+theorem covers_or_self (u b : Bits) (h1 : bitlistLen u = bitlistLen b) (h2 : u.length = b.length) :
+    covers (u.zipWith (· ||| ·) b) b = .ok true := by
+  have hlen : (u.zipWith (· ||| ·) b).length = b.length := by simp [h2]
+  unfold covers
+  rw [if_neg (by simp [bitlistLen_zipWith_or u b h1 h2]), if_neg (by simp [hlen])]
+  congr 1
+  rw [all_zip_getD _ _ b hlen]
+  intro k hk
+  rw [hlen] at hk
+  have hku : k < u.length := by omega
+  simp [List.getD, List.getElem?_zipWith, List.getElem?_eq_getElem hk, List.getElem?_eq_getElem hku, byteCov_or]
+
 end Zrnt.Pool
